@@ -669,13 +669,27 @@ fn build_av01_fmp4(config: &FragmentConfig) -> Vec<u8> {
 }
 
 fn build_av1c_fmp4(config: &FragmentConfig) -> Vec<u8> {
-    let mut payload = Vec::new();
-    payload.push(1); // version
-    payload.push(0); // seq_profile, seq_level_idx_0, seq_tier_0, high_bitdepth, twelve_bit, monochrome, chroma_subsampling_x, chroma_subsampling_y, chroma_sample_position, reserved
-    payload.push(0); // initial_presentation_delay_present, reserved
-    if let Some(seq_header) = &config.av1_sequence_header {
-        payload.extend_from_slice(seq_header);
-    }
+    // AV1CodecConfigurationRecord (AV1-ISOBMFF 2.3.3): a 4-byte header, then the configOBUs.
+    //   byte 0: marker (1) + version (7) = 0x81
+    //   byte 1: seq_profile (3) + seq_level_idx_0 (5)
+    //   byte 2: seq_tier_0, high_bitdepth, twelve_bit, monochrome, subsampling x/y, chroma_sample_position (2)
+    //   byte 3: reserved (3) + initial_presentation_delay_present (1) + delay / reserved (4)
+    let seq_header: &[u8] = config.av1_sequence_header.as_deref().unwrap_or(&[]);
+    let (byte1, byte2) = match crate::codec::av1::extract_av1_config(seq_header) {
+        Some(c) => (
+            ((c.seq_profile & 0x07) << 5) | (c.seq_level_idx & 0x1f),
+            ((c.seq_tier & 0x01) << 7)
+                | (u8::from(c.high_bitdepth) << 6)
+                | (u8::from(c.twelve_bit) << 5)
+                | (u8::from(c.monochrome) << 4)
+                | (u8::from(c.chroma_subsampling_x) << 3)
+                | (u8::from(c.chroma_subsampling_y) << 2)
+                | (c.chroma_sample_position & 0x03),
+        ),
+        None => (0, 0),
+    };
+    let mut payload = vec![0x81, byte1, byte2, 0x00];
+    payload.extend_from_slice(seq_header);
     build_box(b"av1C", &payload)
 }
 
